@@ -2,7 +2,8 @@ SPEC = dict(
     id="C13",
     bin="c13",
     coq_dir="C13",
-    coq_targets=["C13/Proofs.vo", "C13/Examples.vo"],
+    coq_targets=["C13/Proofs.vo", "C13/Examples.vo", "C13/Lookup.vo", "C13/ExamplesL.vo"],
+    props=["C13/Props.v", "C13/PropsL.v"],
     allowed_axioms=[],
     harness_timeout=600,
     level_text=("Unbounded Coq theorems about an executable model of skrifa's COLR painting (ColorGlyph::paint, "
@@ -17,7 +18,15 @@ SPEC = dict(
                 "as PaintCycleDetected/DepthLimitExceeded when all references resolve. The model is tied to the code on every run: "
                 "~1000 generated paint graphs (all 32 paint formats, chains of 61..66 edges, rho-shaped cycles, errors after a push, "
                 "dangling references, identity / exactly cancelling brush transforms under PaintGlyph, clip boxes of every shape incl. inverted / zero-area / variable-crossing on root and nested glyphs, v0 tables) are compiled with write-fonts, painted by the real code under 4 client behaviours, each with a client overriding fill_glyph and one relying on the trait's default body (both streams compared), and "
-                "result class + structural callback stream are compared with the model under vm_compute."),
+                "result class + structural callback stream are compared with the model under vm_compute. The glyph-id lookups "
+                "(v0_base_glyph / v1_base_glyph / v1_clip_box) are modelled as the code runs them: core::slice::binary_search_by of std 1.95 "
+                "(branch-free, last probed non-Greater element) on lists that need not be sorted; PropsL.v: the lookup never panics and "
+                "terminates on any list, a hit is a record of the list whose glyph id / range contains the glyph, on strictly sorted lists "
+                "(disjoint well-formed clip ranges) it finds a record iff one exists and equals the association-list lookup; totality / "
+                "balance / no-panic of painting are instantiated with these lookups on arbitrary (unsorted) graphs. Family `unsorted` (180 "
+                "fonts per quick run: random / reversed / rotated / sorted-with-duplicates BaseGlyphList, baseGlyphRecords and ClipList, "
+                "duplicate glyph ids, nested / touching / inverted clip ranges, record counts patched to exceed the file, to 0 with records "
+                "present and to n-1) is painted for every glyph 0..12 and the model must predict exactly WHICH record the code finds."),
     level_note=("Trusted: Coq kernel; the hand-written model coq/C13/Model.v (agreement with skrifa is checked on generated cases, not proved); "
                 "the harness generator. Floats are abstracted: whether a gradient emits a fill is data of the abstract node (chosen by the "
                 "generator and compiled into a gradient that does/does not draw). Termination of the real code is observed (time budget), "
@@ -28,10 +37,12 @@ SPEC = dict(
               "skrifa/src/color/traversal.rs: traverse_with_callbacks (every ResolvedPaint arm, depth check first, `?` positions), CollectFillGlyphPainter (all 8 methods + inherited defaults), traverse_v0_range, get_clipbox_font_units (as a boolean)",
               "skrifa/src/decycler.rs: Decycler::new/enter, DecyclerGuard::drop (array of 64 ids, depth, depth/2 comparison, stale entries kept)",
               "skrifa/src/color/instance.rs: resolve_paint as far as structure goes (which child reads can fail; 32 formats collapsed to 6 structural kinds)",
-              "read-fonts/src/tables/colr.rs: v1_layer / v1_base_glyph / v1_clip_box / v0_base_glyph / v0_layer as lookups with error outcomes; paint id = address of the paint"],
+              "read-fonts/src/tables/colr.rs: v1_layer / v1_base_glyph / v1_clip_box / v0_base_glyph / v0_layer as lookups with error outcomes; paint id = address of the paint",
+              "read-fonts/src/tables/colr.rs v0_base_glyph / v1_base_glyph / v1_clip_box record search: records.binary_search_by(..) + &records[ix] (coq/C13/Lookup.v bs_find / bs_assoc / bs_clip over core::slice::binary_search_by of std 1.95, copied from coq/C01), exact on unsorted / duplicate / overlapping lists (shards evaluate check_case2 = binary-search model on every graph + association-list model on sorted graphs); a list whose record count exceeds the data = the accessor's Err (list absent), count 0 = empty, count n-1 = prefix"],
     not_covered=["float content of callbacks (transform matrices, brush geometry, colour stops, clip box coordinates): C12/C16 territory",
                  "the float conditions deciding whether a gradient draws at all are not modelled (taken as node data); the harness only uses clean parameter values",
-                 "unsorted / overlapping BaseGlyphList or ClipList (binary search on unsorted data) and inconsistent record counts are not generated",
+                 "record counts that exceed the list by a FEW records (so that the array still fits in the file and the extra records are read from the bytes of the following paint tables) are not generated: only counts beyond the file, 0 and n-1; LayerList / layerRecords counts are not patched",
+                 "the glyph id conversion `glyph_id.try_into()` (ids > 65535 give Ok(None) before the list is looked at) is only exercised at the root, where both outcomes fall through to v0 / no glyph",
                  "visit counter of the real code (no hook): implementation side checks time and callback budget only; F-6 (2^k retries for k nested PaintGlyph) is reported in notes, not as a failure, since the property asks for bounded",
                  "on errors the real stream may be ill nested (Examples.error_stream_prefix_refuted, counted as err_ill_nested_stream): outside the property text"],
     assumptions=["a paint id equals the address of the paint table: equal for the same table reached twice, different for different tables (the generator makes table contents unique)",
